@@ -933,6 +933,17 @@ def nf(n, leaf=None):
             flat(n)
             if op in ('&&', '||'):
                 return '(' + (' %s ' % op).join(terms) + ')'
+            if op in ('+', '*'):
+                # fold the constant factors/terms of a flattened product/sum (minutes * 60 * 1000000 -> 60000000 * minutes)
+                consts = [int(t) for t in terms if t.lstrip('-').isdigit()]
+                rest = [t for t in terms if not t.lstrip('-').isdigit()]
+                if len(consts) > 1 or (consts and not rest):
+                    acc = 1 if op == '*' else 0
+                    for c_ in consts:
+                        acc = acc * c_ if op == '*' else acc + c_
+                    terms = rest + [str(acc)]
+                    if not rest:
+                        return str(acc)
             return '(' + (' %s ' % op).join(sorted(terms)) + ')'
         a, b = nf(n['inner'][0], leaf), nf(n['inner'][1], leaf)
         if op in ('==', '!=') and b < a:
